@@ -46,12 +46,20 @@ def Writer.write (w : Writer) (p : Bytes) : Writer × Bool :=
               else ({ w with out := w.out ++ p, writes := n }, true)
   | none => ({ w with out := w.out ++ p, writes := n }, true)
 
+/-- The three bound tags. -/
+inductive Bound where
+  | json | html | url
+  deriving DecidableEq, Repr, Inhabited
+
+def Bound.esc : Bound → Bytes → Bytes
+  | .json, p => Json.escape p
+  | .html, p => Html.escape p
+  | .url, p => Url.encode p
+
 structure Ctx where
   vars : List (Bytes × VarVal) := []
   chQB : Bool := false
-  chJQ : Bool := false
-  chHE : Bool := false
-  chUE : Bool := false
+  bnd : List Bound := []            -- open bound tags (jsonquote / htmlescape / urlencode), the innermost first
   brkD : Nat := 0
   incD : Nat := 0                   -- depth of nested includes
   err : Option Err := none          -- ctx.Err
@@ -328,13 +336,10 @@ def St.write (s : St) (p : Bytes) : Res :=
   | (w, false) => fail { s with w := w } .writer
 
 /-- Text written for static text or a printed value inside an escape region
-    (`writeNode typeRaw` and, after the repair, the print node too): jsonquote wins over
-    htmlescape over urlencode, as in the `if / else if` chain. -/
+    (`writeNode typeRaw`, the print node, loop separators — `Ctx.writeBound`): the escaping of every
+    open bound tag is applied, the innermost first. -/
 def regionEscape (c : Ctx) (p : Bytes) : Bytes :=
-  if c.chJQ then Json.escape p
-  else if c.chHE then Html.escape p
-  else if c.chUE then Url.encode p
-  else p
+  c.bnd.foldl (fun acc b => b.esc acc) p
 
 /-- The writes of a print node: prefix, value, suffix (prefix and suffix are escaped inside a region,
     the value too unless it is marked raw). The first failing write ends the node. -/
@@ -613,7 +618,7 @@ def iterAfterBody (rb : Res) : IterOut :=
 
 /-- The separator write before every iteration but the first. -/
 def sepWrite (n : Nat) (sep : Bytes) (s : St) : Res :=
-  if n > 0 && !sep.isEmpty then s.write sep else ok s
+  if n > 0 && !sep.isEmpty then s.write (regionEscape s.c sep) else ok s
 
 /-- Next counter value. -/
 def stepVal (o : Op) (v : Int) : Int := if o == .inc then v + 1 else v - 1
@@ -803,12 +808,12 @@ def writeNode (reg : Registry) : Nat → Node → St → Res
         let r := writeTree reg f nodes { c := { s.c with incD := s.c.incD + 1 }, w := {} }
         inclFinish s { r with st := { r.st with c := { r.st.c with incD := r.st.c.incD - 1 } } }
     | .exit => fail s .interrupt
-    | .jsonQ => ok { s with c := { s.c with chJQ := true } }
-    | .endJsonQ => ok { s with c := { s.c with chJQ := false } }
-    | .htmlE => ok { s with c := { s.c with chHE := true } }
-    | .endHtmlE => ok { s with c := { s.c with chHE := false } }
-    | .urlEnc => ok { s with c := { s.c with chUE := true } }
-    | .endUrlEnc => ok { s with c := { s.c with chUE := false } }
+    | .jsonQ => ok { s with c := { s.c with bnd := .json :: s.c.bnd } }
+    | .endJsonQ => ok { s with c := { s.c with bnd := s.c.bnd.erase .json } }
+    | .htmlE => ok { s with c := { s.c with bnd := .html :: s.c.bnd } }
+    | .endHtmlE => ok { s with c := { s.c with bnd := s.c.bnd.erase .html } }
+    | .urlEnc => ok { s with c := { s.c with bnd := .url :: s.c.bnd } }
+    | .endUrlEnc => ok { s with c := { s.c with bnd := s.c.bnd.erase .url } }
     | .div => fail s .unknownCtl
     | .unknown => fail s .unknownCtl
 
